@@ -9,7 +9,8 @@ case kinds (all of them are also sent to the Lean model):
   ws    - a C04 tree: as rendered, with white space at token boundaries, with leading / trailing white space
   sep   - argument texts as `G(..)` and `{..}` under the three separators
   rows  - two-row literal `{a,b;c,d}`, `{a\\b;c\\d}`, `G(a,b;c,d)`
-  case  - cell references as written vs upper-cased, under a grid / label / echo host (see the section below)
+  case  - cell references as written vs upper-cased vs as written with white space at the token boundaries (also on both
+          sides of the ':' of a range), under a grid / label / echo host (see the section below)
 """
 import itertools
 import json
@@ -54,14 +55,17 @@ RULE = ('(lex) token streams of seeded strings, real ply lexer vs model lexer, c
         'separators, NEL, CR, VT, FF, Roman / circled numerals, square metre, half-width katakana) else one of `ab 1`, and 14 '
         'fixed ones (empty, blank, lone / trailing / doubled backslash, each quote inside the other style, 200 characters): the '
         'value must be exactly the characters between the quotes; (ws) 500 formulas of C04\'s tree generator (depth 1..4, no '
-        'error leaves) on C04\'s re-entrant host, each with minimal parentheses, with seeded blank / two blanks / tab / newline '
+        'error, blank or non-dyadic leaves) on C04\'s re-entrant host, each with minimal parentheses, with seeded blank / two blanks / tab / newline '
         'before and a blank after operators, parentheses and commas, and with a leading blank and a trailing newline: same '
         'outcome (floats within 1e-12 relative); (sep) 200 lists of 1..5 arguments (integers 0..49, 20% quoted texts) + 128 '
         'lists that pair quoted texts spelling a separator or operator (comma, semicolon, two backslashes and a blank, . & % ^) '
         'and 1, alone and after 7, each as `G(..)` and `{..}` under each of the 3 separators and as `G( a , b )`: all 7 must '
         'give the same flat list of the integers and the texts between the quotes; (arr) 100 two-row literals (first row 2..4, '
         'second row 1..4 integers 0..49) as `{a,b;c,d}`, `{a\\b;c\\d}` and `G(a,b;c,d)`: all 3 must give the two rows; '
-        '(case) cell references in every form, each rendered as written and with the references upper-cased, evaluated '
+        '(case) cell references in every form, each rendered three ways - as written, with the references upper-cased, and as '
+        'written with seeded white space (nothing 2/7, a blank 2/7, a tab, a newline, or two blanks + newline + blank 1/7 each) at '
+        'every token boundary: on both sides of the `:` of a range, of a bare reference, of commas and of + / *, and inside the '
+        'parentheses of SUM( ) - never between a function name and its parenthesis -, evaluated '
         'with three kinds of host listeners for callCellValue / callRangeValue (an unbounded integer sheet looked up by '
         'row.index / col.index; the same sheet looked up by the label text through a strict upper-case reader; an echo of '
         'every field received: label, index / label / is_absolute of row and column): complete for two seeded one-letter '
@@ -72,7 +76,9 @@ RULE = ('(lex) token streams of seeded strings, real ply lexer vs model lexer, c
         'probability 0.3) used bare, inside SUM(..), G(.., ..) and parenthesised integer + / * (echo host: bare and G only); '
         '100 times the same range written twice in different cases inside one call, G(r, r\') or G(SUM(r), SUM(r\')); 26 fixed '
         'regression witnesses under the 3 hosts (SUM(a1:b2), SUM(c3:a1), G(a1:B2, A1:b2), b2*SUM(a1:A3), xfd9, zz10:ZY9, ...). '
-        'Oracle: both spellings give the identical record (values and their types) under every host, and under the two sheet '
+        'Oracle: both spellings give the identical record (values and their types) under every host, the spaced rendering '
+        'gives the identical record AND the identical list of host events (label, index / label / is_absolute of row and column '
+        'of every cell or corner the listeners received) as the unspaced one, and under the two sheet '
         'hosts that record is the value / block / sum the harness computes for the denoted cells. The model '
         'evaluates the formula as written (`eval`) in an environment that holds values only under the normalised '
         'upper-case labels; its record and its cell / range events (labels, indices, `$` flags) are compared with what '
@@ -98,7 +104,8 @@ TRUSTED = ['the regular-expression engine `re` (each token rule has a hand-writt
            'which the values of the grid- and label-addressed hosts are compared; SUM of integers and the registered function G '
            '(returns its arguments) as carriers of the values']
 ASSUMPTIONS = ['white space is blank, tab and newline; it is never inserted between a function name and its parenthesis, nor inside a '
-               'token (between the two characters of <= >= <>, inside a name, number or quoted literal)',
+               'token (between the two characters of <= >= <>, inside a name, number or quoted literal); a range is three tokens: '
+               'white space on either side of its `:` changes neither the outcome nor the cells the host is asked for',
                'an integer literal may have leading zeros (007 is 7); every numeric literal must evaluate without error to a '
                'non-boolean number: an int equal to the rational it spells, or a float that is the correctly rounded double of it',
                'n% is computed as n*0.01 in floating point: compared within 1 ulp of n/100, for n below 2^53',
